@@ -780,6 +780,42 @@ func runC04Lex(c *Ctx) {
 			m.errFns[f] = true
 		}
 	}
+	// after an error (and at EOF) the lexer hands out the End token, so loops over tokens stop (used by C01.LOOP)
+	if eof := p.Method("ExprLexer", "eof"); eof == nil {
+		c.anchorMissing("(*ExprLexer).eof")
+	} else {
+		okKind := false
+		eachInstr(eof, func(_ *ssa.BasicBlock, _ int, in ssa.Instruction) {
+			if st, ok := in.(*ssa.Store); ok {
+				if fa, ok := st.Addr.(*ssa.FieldAddr); ok && fieldAddrName(fa) == "Token.Kind" {
+					if k, ok := constInt(st.Val); ok && int(k) < len(tk.names) && tk.names[k] == "End" {
+						okKind = true
+					}
+				}
+			}
+		})
+		okErr := true
+		for _, n := range []string{"unexpected", "unexpectedEOF"} {
+			f := p.Method("ExprLexer", n)
+			if f == nil {
+				okErr = false
+				continue
+			}
+			for _, b := range f.Blocks {
+				if ret, ok := b.Instrs[len(b.Instrs)-1].(*ssa.Return); ok {
+					call, ok := ret.Results[0].(*ssa.Call)
+					if !ok || staticCallee(&call.Call) != eof {
+						okErr = false
+					}
+				}
+			}
+		}
+		if okKind && okErr {
+			c.ok("(*ExprLexer).unexpected|End token after an error", eof.Pos(), "the error paths return eof(), a token of kind End")
+		} else {
+			c.bad("(*ExprLexer).unexpected|End token after an error", eof.Pos(), "after a lexing error a token other than End is returned: loops reading tokens until End do not stop")
+		}
+	}
 	start := &lstate{frames: []*lframe{{fn: next, env: map[ssa.Value]aval{}}}}
 	// strict first, then with named relaxations (each one used is a deviation from the documented language)
 	var subsets [][]string
